@@ -1603,6 +1603,25 @@ Proof.
   - apply fol_mono with 0; [lia|]. now apply stopb_fol.
 Qed.
 
+(** the same with the general continuation condition: [rest] may be anything that cannot continue
+    an expression — it starts with no identifier character, `(`, `.` or `[`, and after optional
+    whitespace with no binary operator ([fol 0]); e.g. ` desc`, ` nodrop`, ` as x`, `)`, `,`, `| ...` *)
+Theorem expr_roundtrip_fol (o : popts) (e : expr) (rest : str) :
+  popts_ok o = true -> wf_expr e = true -> fol 0 rest ->
+  opt_expr (pp o 0 e ++ rest) = POk e rest.
+Proof.
+  intros Ho Hwf Hrest. unfold popts_ok in Ho.
+  apply andb_true_iff in Ho as [Ho H3]. apply andb_true_iff in Ho as [H1 H2].
+  assert (Hne : po_ws1 o <> []) by (destruct (po_ws1 o); [discriminate H3|discriminate]).
+  unfold opt_expr, expr_fuel.
+  rewrite skip_spaces_nsp by now apply nsp_app, nsp_pp.
+  cbn [p_expr]. rewrite pp_0_1.
+  apply (C1_S1 (oef (S (length (pp o 1 e ++ rest))))).
+  - apply (main o H1 H2 Hne e Hwf (S (length (pp o 1 e ++ rest)))
+             ltac:(rewrite app_length; pose proof (ht_le_len o e 1); lia) 1). lia.
+  - apply fol_mono with 0; [lia|]. exact Hrest.
+Qed.
+
 (** any two spellings of the same expression are read identically *)
 Corollary expr_spellings_agree (o1 o2 : popts) (e : expr) (rest : str) :
   popts_ok o1 = true -> popts_ok o2 = true -> wf_expr e = true -> stopb rest = true ->
